@@ -157,7 +157,17 @@ class _NonrecursivePickler(dill.Pickler):
                         self.lazywrites.extend(lws)
                         break
                 elif isinstance(lw, _LazyMemo):
-                    self.realmemoize(lw.obj)
+                    if id(lw.obj) in self.memo:
+                        # the object was reached again (and memoized) while
+                        # its own contents were being written -- e.g. a tuple
+                        # that is part of a reference cycle.  drop the copy
+                        # just built and refer to the memoized one, exactly
+                        # as pickle itself does for recursive tuples
+                        self.realwrite(
+                            pickle.POP + self.get(self.memo[id(lw.obj)][0])
+                        )
+                    else:
+                        self.realmemoize(lw.obj)
                 else:
                     self.realwrite(*lw)
         self.realwrite(pickle.STOP)
